@@ -182,4 +182,9 @@ def timer_jobs(props, quick):
     for name, algs in E.items():
         out.append((name, {'style': 'legacy', 'algs': algs}, ['A'], props,
                     {'reqs': 2, 'clock_at': '2024-01-10T02:00:00+00:00', 'max_timers': 2}))
+    if 'C04' in props:
+        # a data base that knows no target yet ("every target set, including none")
+        for name in ('timer-root', 'timer-analysis'):
+            out.append((name + '/no-targets', {'style': 'legacy', 'algs': E[name]}, [], props,
+                        {'reqs': 0, 'clock_at': '2024-01-10T02:00:00+00:00', 'max_timers': 2}))
     return out
